@@ -51,6 +51,8 @@ the rules see:
   S30 while               `while c: B`  ->  `while True: if not c: break ; B`
   S31 result variables    `if c: A ; x = e` ; `return x`  ->  `if c: A ; return e` ; `return x`
   S32 loop unpacking      `for x in it: a, b = x ; S`  ->  `for a, b in it: S`
+  S35 delegation          `yield from E`  ->  `for v in E: yield v`
+  S36 local lambdas       `f = lambda a: E` ; `f(x)`  ->  `E[a := x]`   (f only ever called)
   S12 literal loops       `for x in (a, b): S(x)`  ->  `S(a)` ; `S(b)`   (at most four simple elements, no
                           `break`, `continue` only as leading guards, x not used afterwards)
 
@@ -783,6 +785,16 @@ class Canon:
         """A rewrite of `s` (and of `consumed` following statements), or None."""
         if isinstance(s, JUMPS) and rest:
             return [s], len(rest)  # unreachable statements
+        if isinstance(s, ast.Expr) and isinstance(s.value, ast.YieldFrom):
+            # S35 `yield from E`  ->  `for v in E: yield v`   (no caller of this package sends into its generators)
+            facts = NameFacts(self.fn)
+            used = set(facts.stores) | set(facts.loads) | facts.special
+            k = 1
+            while f"_each{k if k > 1 else ''}" in used:
+                k += 1
+            v = f"_each{k if k > 1 else ''}"
+            y = _loc(ast.Expr(value=ast.Yield(value=ast.Name(id=v, ctx=ast.Load()))), s)
+            return [_loc(ast.For(target=ast.Name(id=v, ctx=ast.Store()), iter=s.value.value, body=[y], orelse=[], type_comment=None), s)], 0
         if (
             isinstance(s, ast.Assign) and _plain_target(s) is not None and rest and isinstance(rest[0], ast.If)
             and isinstance(s.value, (ast.Tuple, ast.List, ast.Dict, ast.Set, ast.JoinedStr, ast.ListComp, ast.DictComp))
@@ -1552,6 +1564,44 @@ class Canon:
                     break
         return False
 
+    def _beta(self, fn: ast.AST, blk: List[ast.stmt], i: int, name: str, lam: ast.Lambda, facts: NameFacts) -> bool:
+        la = lam.args
+        if la.vararg or la.kwarg or la.kwonlyargs or la.defaults or la.posonlyargs:
+            return False
+        params = [a.arg for a in la.args]
+        # free names of the body must not be re-bound after the lambda is created
+        free = {n.id for n in ast.walk(lam.body) if isinstance(n, ast.Name)} - set(params)
+        if any(facts.stores.get(f, 0) > 1 for f in free) or any(isinstance(n, (ast.Yield, ast.YieldFrom, ast.Await)) for n in ast.walk(lam.body)):
+            return False
+        calls_ = []
+        for st in blk[i + 1:]:
+            for n in ast.walk(st):
+                if isinstance(n, ast.Call) and isinstance(n.func, ast.Name) and n.func.id == name:
+                    calls_.append(n)
+        total = sum(_all_loads(st, name) for st in blk[i + 1:])
+        if not calls_ or total != len(calls_) or total != facts.loads.get(name, 0):
+            return False
+        for c in calls_:
+            if c.keywords or len(c.args) != len(params) or any(isinstance(a, ast.Starred) for a in c.args):
+                return False
+            if not all(_simple(a) or _all_loads(lam.body, p) <= 1 for p, a in zip(params, c.args)):
+                return False
+
+        class _B(ast.NodeTransformer):
+            def visit_Call(self, node: ast.Call) -> ast.AST:
+                self.generic_visit(node)
+                if isinstance(node.func, ast.Name) and node.func.id == name:
+                    body = copy.deepcopy(lam.body)
+                    for p, a in zip(params, node.args):
+                        body = _Subst(p, a).visit(body)
+                    return _loc(body, node)
+                return node
+
+        for k in range(i + 1, len(blk)):
+            blk[k] = _B().visit(blk[k])
+        del blk[i]
+        return True
+
     def _stable_flag(self, e: ast.expr, facts: NameFacts) -> bool:
         """isinstance() / `is` tests (and their and/or/not) over names that are never re-bound."""
         def stable(x: ast.expr) -> bool:
@@ -1670,6 +1720,9 @@ class Canon:
                             blk[k] = sub.visit(blk[k])
                         del blk[i]
                         return True
+                # a local lambda that is only ever called: each call is its body (beta reduction)
+                if nloads >= 1 and isinstance(value, ast.Lambda) and self._beta(fn, blk, i, name, value, facts):
+                    return True
                 # a constant: substitute everywhere
                 if nloads >= 1 and isinstance(value, ast.Constant) and not isinstance(value.value, (str, bytes)):
                     after = sum(_all_loads(x, name) for x in blk[i + 1:])
